@@ -320,7 +320,9 @@ func (e *Env) doWFaults(op *Op) {
 	if len(bufs) == 0 || kind == "persist" {
 		bufs = []int{0}
 	}
-	for _, buf := range bufs {
+	var full0 []byte
+	for bi := 0; bi < len(bufs); bi++ {
+		buf := bufs[bi]
 		run := mk(buf)
 		// fault-free reference
 		ref := &faultWriter{limit: -1, closeAt: -1}
@@ -335,9 +337,29 @@ func (e *Env) doWFaults(op *Op) {
 		full := append([]byte{}, ref.buf.Bytes()...)
 		L := len(full)
 		_ = rn
+		if full0 == nil {
+			full0 = full
+			if kind == "merge" && len(op.Bufs) > 0 {
+				// merge buffers that the file fills exactly (the last byte lands on the buffer's end), and one off
+				bufs = append(bufs, L, L-1, L+1)
+				if L%2 == 0 {
+					bufs = append(bufs, L/2)
+				}
+			}
+		} else if !bytes.Equal(full, full0) {
+			// the fault-free file must not depend on the merge buffer size: report it as a write that was supposed
+			// to succeed (no fault) and did not deliver the complete file
+			e.emit(M{"ev": "wfault", "kind": kind, "buf": buf, "mode": "fail", "L": len(full0), "in": op.In, "drops": dropsEv,
+				"outcomes": [][]interface{}{{len(full0) + 1, "nil", len(full), false, false, clampSigned(int(rn))}}, "res": M{"kind": "ok"}})
+			continue
+		}
 		modes := []string{"fail"}
 		if kind == "merge" {
 			modes = append(modes, "close", "retry")
+		}
+		extra := kind == "merge" && len(op.Bufs) > 0 && bi >= len(op.Bufs) // the exact-fit sizes: a coarse sweep
+		if extra {
+			modes = []string{"fail"}
 		}
 		for _, mode := range modes {
 			outcomes := [][]interface{}{}
@@ -346,6 +368,11 @@ func (e *Env) doWFaults(op *Op) {
 				step = op.Stop
 			}
 			run := run
+			if extra {
+				if s := L / 16; s > step {
+					step = s
+				}
+			}
 			if mode == "retry" {
 				run = mkRetry(buf)
 				if s := L / 12; s > step {
